@@ -1685,6 +1685,27 @@ def rule_custom_sem(ctx: RuleContext, p: Program, rid: str) -> None:
                 v = self.expr(e.args[0], env)
                 if isinstance(v, (int, str, decimal.Decimal)):
                     return decimal.Decimal(v)
+            if isinstance(e, ast.Call) and isinstance(e.func, ast.Attribute) and e.func.attr == 'from_value' and len(e.args) == 1 \
+                    and not (isinstance(e.func.value, ast.Name) and e.func.value.id not in env):
+                cv = self.expr(e.func.value, env)          # the class taken from a variable or a table
+                if isinstance(cv, possem.ClassRef):
+                    return possem.Obj(cv.name, {'value': self.expr(e.args[0], env), 'fresh': True}, f'new {cv.name}')
+            if isinstance(e, ast.Call) and isinstance(e.func, ast.Name) and e.func.id == 'type' and 'type' not in env and len(e.args) == 1:
+                v = self.expr(e.args[0], env)
+                return ('type', v.cls) if isinstance(v, possem.Obj) else ('type', type(v).__name__)
+            tbl = None
+            if isinstance(e, ast.Name) and e.id not in env:
+                tbl = next((st.value for st in m.tree.body if isinstance(st, (ast.Assign, ast.AnnAssign)) and st.value is not None
+                            and norm(st.targets[0] if isinstance(st, ast.Assign) else st.target) == e.id and isinstance(st.value, ast.Dict)), None)
+            if isinstance(e, ast.Dict) and e.keys and all(k_ is not None and norm(k_).rsplit('.', 1)[-1] in ('str', 'date', 'datetime', 'bool', 'int', 'Decimal', 'float') for k_ in e.keys):
+                tbl = e
+            if tbl is not None:
+                # a table keyed by classes: python compares classes by identity, so type(v) of an instance of a subclass finds nothing
+                out_: dict = {}
+                for k_, v_ in zip(tbl.keys, tbl.values):
+                    kn = norm(k_).rsplit('.', 1)[-1]
+                    out_[('type', kn)] = self.expr(v_, env)
+                return out_
             if isinstance(e, ast.Call) and norm(e.func) == 'isinstance' and len(e.args) == 2:
                 v = self.expr(e.args[0], env)
                 alts: list = []
@@ -1708,7 +1729,13 @@ def rule_custom_sem(ctx: RuleContext, p: Program, rid: str) -> None:
             return possem.Obj(kind, {'value': sample[kind]}, f'old {kind}')
         return possem.Obj(kind, {}, f'old {kind}')
 
-    values: list[Any] = ['text', '', datetime.date(2020, 1, 2), True, False, decimal.Decimal('2.50'), decimal.Decimal(0), decimal.Decimal(1)]
+    class _Text2(str):
+        pass
+
+    class _Amount2(decimal.Decimal):
+        pass
+    values: list[Any] = ['text', '', datetime.date(2020, 1, 2), True, False, decimal.Decimal('2.50'), decimal.Decimal(0), decimal.Decimal(1),
+                         _Text2('tagged'), datetime.datetime(2020, 1, 2, 3, 4), _Amount2(7)]          # instances of subclasses are values of the plain types too
     if admits_int:
         values += [3, 0, 1]
     values += [possem.Obj('Account', {}, 'an account token'), possem.Obj('Amount', {}, 'an amount')]
@@ -1734,7 +1761,7 @@ def rule_custom_sem(ctx: RuleContext, p: Program, rid: str) -> None:
                 ok = final is v and back is v
                 why = 'a preserved model is stored and read back as it is'
             else:
-                k = want_kind[type(v)]
+                k = want_kind.get(type(v)) or next(kk for tt, kk in ((str, 'EscapedString'), (datetime.date, 'Date'), (decimal.Decimal, 'NumberExpr')) if isinstance(v, tt))
                 ok = isinstance(final, possem.Obj) and final.cls == k and type(back) is type(final.f.get('value')) and back == v \
                     and (type(back) is type(v) or (type(v) is int and isinstance(back, decimal.Decimal)))
                 why = f'a {type(v).__name__} belongs in a {k} and reads back as {v!r}'
